@@ -30,7 +30,8 @@ enum cif_call
    CID_changeLowerReal_vec, CID_changeLowerReal_i, CID_getLowerReal, CID_getObjReal,
    CID_changeUpperReal_vec, CID_changeUpperReal_i, CID_getUpperReal,
    CID_basisRowStatus, CID_basisColStatus, CID_getRowVectorReal, CID_getRowRational,
-   CID_lhsReal_i, CID_rhsReal_i, CID_lhsRational_i, CID_rhsRational_i
+   CID_lhsReal_i, CID_rhsReal_i, CID_lhsRational_i, CID_rhsRational_i,
+   CID_internalVector   /* lowerRealInternal() & co.: solver-internal data, never the documented result */
 };
 
 /* --- the call ledger ---------------------------------------------------------------------- */
